@@ -71,6 +71,11 @@ func runInterp(cfg *runCfg, prefix string, nQuick, nThorough int, rule string, g
 			return nil, err
 		}
 	}
+	if rej := sum.Distribution["rejected by Parse (generator)"]; rej > n/3 {
+		// the programs of the generator are accepted by the unchanged parser and its
+		// documents by the vector: losing a third of them means the tie is broken
+		return nil, fmt.Errorf("%d of %d generated cases were rejected by Parse / the document parser: %v", rej, n, sum.Notes)
+	}
 	if err := emitICases(cfg, sum, prefix, cases, 150); err != nil {
 		return nil, err
 	}
